@@ -18,7 +18,10 @@ PI = math.pi
 
 
 def units(tier):
-    return [(i, 2500) for i in range(12)] if tier == "quick" else [(i, 60000) for i in range(16)]
+    if tier == "quick":
+        return [(i, 2500) for i in range(12)]
+    # plain generation for the bulk, plus four small units in which Hypothesis hill-climbs on the residual/tolerance ratios
+    return [(i, 60000) for i in range(16)] + [("target-%d" % i, 2500) for i in range(4)]
 
 
 def _angle():
